@@ -8,6 +8,7 @@ import KoordVerif.Proofs.C19ExtRsvCache
 import KoordVerif.Proofs.C19ExtQuota
 import KoordVerif.Proofs.C19ExtEvents
 import KoordVerif.Proofs.C19ExtBoot
+import KoordVerif.Proofs.C19ExtAdapter
 /-
 C19 — scheduler allocation state survives a restart unchanged.  Property theorems.
 
@@ -872,5 +873,36 @@ example : Boot.bootSeen [{ inBarrier := true, gated := false }, { inBarrier := t
 /-- … and with that registration not collected the first cycle runs without the Reservation's event -/
 example : Boot.bootSeen [{ inBarrier := true, gated := false }, { inBarrier := false, gated := true }] [[1, 2], [3]]
     = (false, true, [1, 2]) := by decide
+
+/-! ### S3. the Reservation → pod adapter (Model/C19Adapter.lean; harness `rflt`)
+`NewReservationToPodEventHandler(podHandler, IsObjValidActiveReservation)`: which Reservation versions reach the pod
+handler, and as what.  `passes` = ValidateReservation ∧ status.nodeName set ∧ phase ∈ {Available, Waiting}. -/
+
+/-- live: after add(v0) and ANY chain of update events the pod handler holds the reserve pod iff the LAST version is a
+    valid, scheduled, unfinished Reservation (Pending → Available adds, Available → Succeeded / Failed releases, a
+    version that lost its node name or validity releases …). -/
+theorem adapter_live_presence (v0 : Adapter.RV) (vs : List Adapter.RV) :
+    Adapter.presentAfter (Adapter.calls v0 vs) = Adapter.passes (Adapter.lastV v0 vs) :=
+  Adapter.live_presence v0 vs
+
+/-- rebuilt = live: a restarted scheduler, which sees add(last version) only, holds the reserve pod exactly when the
+    live scheduler does — for every version history. -/
+theorem adapter_rebuilt_eq_live (v0 : Adapter.RV) (vs : List Adapter.RV) :
+    Adapter.presentAfter (Adapter.onAdd (Adapter.lastV v0 vs)) = Adapter.presentAfter (Adapter.calls v0 vs) := by
+  rw [Adapter.rebuilt_presence, Adapter.live_presence]
+
+/-- a delete of the last version (plain object or tombstone: the filter unwraps it) leaves nothing behind. -/
+theorem adapter_delete_releases (v0 : Adapter.RV) (vs : List Adapter.RV) :
+    Adapter.presentAfter (Adapter.calls v0 vs ++ Adapter.onDelete (Adapter.lastV v0 vs)) = false :=
+  Adapter.delete_releases v0 vs
+
+/-- a Waiting Reservation (scheduled, not yet usable by owners) is ACTIVE: its CPUs / devices stay taken. -/
+theorem adapter_waiting_holds (v : Adapter.RV) (hv : Adapter.valid v = true) (hn : v.node = true) (hp : v.phase = 2) :
+    Adapter.presentAfter (Adapter.onAdd v) = true := by
+  rw [Adapter.rebuilt_presence]; simp [Adapter.passes, Adapter.active, hv, hn, hp]
+
+/-- non-vacuous: Pending(unscheduled) → Available → Succeeded gives add, delete -/
+example : Adapter.calls ⟨true, true, true, false, 0⟩ [⟨true, true, true, true, 1⟩, ⟨true, true, true, true, 3⟩]
+    = [.add, .del] := by decide
 
 end KoordVerif.C19
